@@ -1,7 +1,7 @@
 (* C12 proofs, part D: all event lists on one ThrottleList (accounting, no internal_error, rate
    bound), tick arithmetic, system-level facts and computed witnesses. *)
 From Coq Require Import List NArith Bool Lia PeanoNat.
-From LTV Require Import Params_gen.
+From LTV.C12 Require Import ParamsGen.
 From LTV.C12 Require Import Model ProofsA ProofsB ProofsC.
 Import ListNotations.
 Local Open Scope N_scope.
@@ -101,16 +101,17 @@ Qed.
 
 (* ------------------------------------------------------------------ tick arithmetic *)
 Lemma need_le_quota q f r : need_of q f r <= q.
-Proof. unfold need_of. lia. Qed.
+Proof. unfold need_of. destruct (r =? 0); lia. Qed.
 
 Lemma mod_le' a b : b <> 0 -> a mod b <= a.
 Proof. intros. apply N.mod_le. assumption. Qed.
 
 (* what a tick hands to a list with rate r after [count] microseconds never exceeds count*r/10^6 *)
-Lemma tick_grant count r :
-  need_of (tick_quota count r) (tick_fraction count) r <= count * r / 1000000.
+Lemma tick_grant count r q : r <> 0 ->
+  need_of q (tick_fraction count) r <= count * r / 1000000.
 Proof.
-  unfold need_of, tick_fraction, fraction_base.
+  intros Hr0. unfold need_of, tick_fraction, fraction_base.
+  destruct (N.eqb_spec r 0) as [|_]; [contradiction|].
   pose proof params_ok_now as P. unfold params_ok in P. repeat (apply andb_prop in P as [P ?]).
   match goal with H : (Params.throttle_fraction_bits =? 16) = true |- _ => apply N.eqb_eq in H; rewrite H end.
   change (2 ^ 16) with 65536.
@@ -144,11 +145,12 @@ Proof. intros E. unfold node_quota. rewrite E. reflexivity. Qed.
 Definition valid_opb (x : st) (o : op) : bool :=
   match o with
   | OInsert l _ => match get_tl x l with Some t => N.of_nat (length (nodes t)) <? Nmax | None => true end
-  | OErase _ _ | OConsume _ _ _ | OAdvance _ | OSlave => true
+  | OErase _ _ | OConsume _ _ _ | OAdvance _ => true
+  | OSlave => N.of_nat (length (slaves x)) <? Kmax
   | OUsed _ _ n | OUnthr _ n => n <? w32
-  | OSetRate O v => if mrate x =? 0 then v <=? Qmax else true
+  | OSetRate O v => if mrate x =? 0 then tick_quota 1000000 v <=? Qmax else true
   | OSetRate (S _) _ => true
-  | OTick dt => enabled (rtl x) && (last_tick x + 90000 <=? now x + dt) &&
+  | OTick dt => enabled (rtl x) && (last_tick x + Params.throttle_tick_min_interval_ms * 1000 <=? now x + dt) &&
                 (tick_quota (now x + dt - last_tick x) (mrate x) <=? Qmax)
   | OQuota _ _ | ODeact _ _ => false
   end.
@@ -159,15 +161,15 @@ Fixpoint valid_opsb (x : st) (ops : list op) : bool :=
   | o :: r => valid_opb x o && match step x o with Ok (x', _) => valid_opsb x' r | Err _ => true end
   end.
 
-(* The full "no internal_error from valid op lists" is FALSE of the code: m_rateAdded of a slave
-   list accumulates while the root is unlimited and is pushed into the root's Rate on the second
-   tick after a limit is set; above 2^28 Rate::insert throws. *)
+(* Regression witness of the repaired defect (commit 36e16d0): m_rateAdded of a slave list used to
+   accumulate while the root was unlimited and was pushed into the root's Rate on the second tick
+   after a limit was set (Rate::insert threw above 2^28). enable() now resets it. *)
 Definition witness_rate_added : list op :=
   [OSlave; OInsert 1 0; OConsume 1 0 268435456; OConsume 1 0 1; OSetRate 0 1000; OTick 1000000].
 
-Lemma no_internal_error_refuted :
-  exists ops, valid_opsb init ops = true /\ snd (run init ops) = Some E_rate_insert.
-Proof. exists witness_rate_added. split; vm_compute; reflexivity. Qed.
+Lemma rate_added_regression :
+  valid_opsb init witness_rate_added = true /\ snd (run init witness_rate_added) = None.
+Proof. split; vm_compute; reflexivity. Qed.
 
 (* A slave (per-torrent) limit is not enforced while the root is unlimited: 262144 payload bytes
    move at one instant through a slave limited to 1000 B/s. *)
@@ -185,17 +187,19 @@ Proof.
   eexists. split; [vm_compute; reflexivity|]. split; vm_compute; reflexivity.
 Qed.
 
-(* A slave whose own limit is removed (rate 0) under a limited root is never granted anything:
-   its node stays deactivated over 5 one-second ticks (bounded witness of the starvation). *)
+(* Regression witness of the repaired starvation (commit 5638f7b): a slave with rate 0 (= unlimited,
+   also what create_slave copies from an unlimited root) under a limited root used to get need = 0
+   on every tick; it now shares the root's tick quota and its deactivated node is reactivated. *)
 Definition witness_slave_starves : list op :=
   [OSetRate 0 100000; OSlave; OSetRate 1 0; OInsert 1 0; OTick 1000000; OTick 1000000; OConsume 1 0 1;
    OTick 1000000; OTick 1000000; OTick 1000000; OTick 1000000; OTick 1000000].
 
-Lemma slave_rate0_starves_witness :
+Lemma slave_rate0_regression :
   valid_opsb init witness_slave_starves = true /\
+  snd (run init witness_slave_starves) = None /\
   exists x, last (map (fun p => Some (fst p)) (fst (run init witness_slave_starves))) None = Some x /\
-            option_map (fun s => (inact (s_tl s), held (s_tl s))) (nth_error (slaves x) 0) = Some ([(0, 0)], 0).
-Proof. split; [vm_compute; reflexivity|]. eexists. split; vm_compute; reflexivity. Qed.
+            option_map (fun s => inact (s_tl s)) (nth_error (slaves x) 0) = Some [].
+Proof. split; [vm_compute; reflexivity|]. split; [vm_compute; reflexivity|]. eexists. split; vm_compute; reflexivity. Qed.
 
 (* non-vacuity examples *)
 Example ex_valid_run :
